@@ -85,16 +85,27 @@ Lemma witness_F3 :
   after_epoch_end w_cfg w3_thr w3_pre = Err E_EPOCH /\ 0 < ideal_credit w_cfg w3_thr w3_pre 1 0.
 Proof. vm_compute. split; reflexivity. Qed.
 
-(* C09-F5: a lock gauge paying user 1, then user 2 creates a NoLock gauge of 2 uosmo over 3 epochs on pool 1: the next
-   epoch end fails although no min-value quote fails, and user 1 is owed the second half of the lock gauge *)
+(* C09-F5 (fixed in /repo by 5be8fedaa6), kept as a regression witness: a lock gauge paying user 1, then user 2 creates a
+   NoLock gauge of 2 uosmo over 3 epochs on pool 1. The per-epoch amount 2/3 = 0 is skipped: the epoch end succeeds,
+   user 1 receives the second half of the lock gauge, the NoLock gauge counts the epoch (1 of 3) and has handed out nothing;
+   it pays 1 uosmo at each of the two following epoch ends *)
 Definition w5_ops : list op :=
   [ OGauge 0 false 0 3600000 [(0, 10 ^ 9)] 0 2; OLock 1 0 1000 3600000;
     OEpoch 86400000 [TVal 1; TNoRoute; TNoRoute; TNoRoute; TNoRoute];
     ONGauge 2 false 1 [(0, 2)] 0 3; OTime 86400000 ].
 Definition w5_pre : state := run w_cfg (init_state w_funds) w5_ops.
-Lemma witness_F5 :
-  after_epoch_end w_cfg w_thr w5_pre = Err E_EPOCH /\ ideal_credit w_cfg w_thr w5_pre 1 0 = 500000000 /\
-  map g_filled (s_gauges w5_pre) = [1; 0] /\ refs_all (s_act w5_pre) = [1] /\ refs_all (s_up w5_pre) = [2].
+Definition w5_thr_list : list tval := [TVal 1; TNoRoute; TNoRoute; TNoRoute; TNoRoute].
+Definition w5_end : state := run w_cfg (epoch_of w_cfg w_thr w5_pre) [OEpoch 86400000 w5_thr_list; OEpoch 86400000 w5_thr_list].
+(* (stated with [is_ok]: an equation between states would make the kernel normalise the nested bank closures) *)
+Definition is_ok {A : Type} (r : res A) : bool := match r with Ok _ => true | Err _ => false end.
+Lemma regression_F5 :
+  is_ok (after_epoch_end w_cfg w_thr w5_pre) = true /\
+  s_bank (epoch_of w_cfg w_thr w5_pre) 1 0 - s_bank w5_pre 1 0 = 500000000 /\
+  ideal_credit w_cfg w_thr w5_pre 1 0 = 500000000 /\
+  map (fun g => (amount_of (g_dist g) 0, g_filled g)) (s_gauges (epoch_of w_cfg w_thr w5_pre)) = [(10 ^ 9, 2); (0, 1)] /\
+  refs_all (s_fin (epoch_of w_cfg w_thr w5_pre)) = [1] /\ refs_all (s_act (epoch_of w_cfg w_thr w5_pre)) = [2] /\
+  map (fun g => (amount_of (g_dist g) 0, g_filled g)) (s_gauges w5_end) = [(10 ^ 9, 2); (2, 3)] /\
+  refs_all (s_fin w5_end) = [1; 2] /\ s_bank w5_end MODULE 0 = 0 /\ s_bank w5_end (pool_addr 1) 0 - w_funds (pool_addr 1) 0 = 2.
 Proof. vm_compute. repeat split; reflexivity. Qed.
 
 Lemma w_thr_no_error : thr_no_error w_thr.
@@ -130,14 +141,6 @@ Lemma epoch_succeeds_full_refuted :
 Proof.
   intros H. destruct (H w_cfg w_funds w3_ops w3_thr w_cfg_ok w3_thr_positive) as (s' & E).
   fold w3_pre in E. destruct witness_F3 as [W _]. rewrite W in E. clear - E. discriminate E.
-Qed.
-
-Lemma epoch_succeeds_without_quote_error_refuted :
-  ~ (forall cfg funds ops thr, cfg_ok cfg -> thr_no_error thr ->
-     exists s', after_epoch_end cfg thr (run cfg (init_state funds) ops) = Ok s').
-Proof.
-  intros H. destruct (H w_cfg w_funds w5_ops w_thr w_cfg_ok w_thr_no_error) as (s' & E).
-  fold w5_pre in E. destruct witness_F5 as [W _]. rewrite W in E. clear - E. discriminate E.
 Qed.
 
 Lemma share_credit_reachable : forall cfg funds ops thr s', cfg_ok cfg -> thr_positive thr ->
@@ -206,21 +209,17 @@ Proof.
   vm_compute. repeat split; reflexivity.
 Qed.
 
-(* a NoLock gauge of 10 uosmo over 3 epochs on pool 1: the hypothesis of the liveness theorem holds, the epoch end
-   succeeds, floor(10/3) = 3 uosmo move from the module account to the pool's incentives address *)
+(* a NoLock gauge of 10 uosmo over 3 epochs on pool 1: the epoch end succeeds, floor(10/3) = 3 uosmo move from the
+   module account to the pool's incentives address *)
 Definition nv3_ops : list op := [ ONGauge 0 false 1 [(0, 10)] 0 3; OTime 86400000 ].
 Definition nv3_pre : state := run w_cfg (init_state w_funds) nv3_ops.
 Lemma nonvacuous_nolock :
-  (forall g, takes_part nv3_pre g -> nolock_ok g) /\
   (exists g, takes_part nv3_pre g /\ g_pool g = 1) /\
   after_epoch_end w_cfg w_thr nv3_pre = Ok (epoch_of w_cfg w_thr nv3_pre) /\
   s_bank nv3_pre MODULE 0 = 10 /\ s_bank (epoch_of w_cfg w_thr nv3_pre) MODULE 0 = 7 /\
   s_bank (epoch_of w_cfg w_thr nv3_pre) (pool_addr 1) 0 - s_bank nv3_pre (pool_addr 1) 0 = 3 /\
   map (fun g => (amount_of (g_dist g) 0, g_filled g)) (s_gauges (epoch_of w_cfg w_thr nv3_pre)) = [(3, 1)].
 Proof.
-  split.
-  { intros g [Hi _]. vm_compute in Hi. destruct Hi as [<-|[]]. intros _ remain Hr. vm_compute in Hr. inversion Hr; subst.
-    constructor; [vm_compute; discriminate|constructor]. }
   split.
   { eexists. split; [split; [vm_compute; left; reflexivity|right; vm_compute; split; [reflexivity|discriminate]]|reflexivity]. }
   vm_compute. repeat split; reflexivity.
